@@ -2,7 +2,7 @@
 //! circuit agree on every program).
 //!
 //! Request line:  `run <instr>... | <name>=<value>... | <hash-table entries>...`
-//! Answer line:   `load:.. | trace:.. | off:.. | cmp:.. | pi:.. | mock:.. | bin:..`
+//! Answer line:   `load:.. | trace:.. | off:.. | cmp:.. | shp:.. | pi:.. | mock:.. | bin:..`
 //! (see `text.rs` for the encodings and `run.rs` for what each section observes).
 mod gen;
 mod run;
